@@ -22,6 +22,7 @@ EXPLANATION = (
   "type-checked and self-validating, and no validator is vacuous (LINT-b) ; (REG) no discarded lazy iterator (LINT-a), and every "
   "function that deletes or replaces a registry entry re-points or clears the elements that reference it."
   " (STATE-alias / STATE-global) no function of the anchored modules mutates a module- or class-level container, rebinds module / class state or mutates a mutable default argument, so a result never depends on earlier calls;"
+  " (INDEP) the first-child and last-child link updates are independent statements;"
 )
 RULE_TEXT = "one instance per element kind, link-field store, guard, mutator, store site, registry writer"
 UNDECIDED = ["arbitrary call histories as such (the rules are the per-operation preconditions, not the induction)",
